@@ -109,6 +109,20 @@ CLAIMS = {
         note="bounded class strings; alignment/length only through padding; escape spelling not compared; std library trusted",
         engine="str",
     ),
+    "C19": dict(
+        category="exploration",
+        technique="TLA+ specification of the number case structure (Num: literal grammar = JsonLex's DFA, destination rules, symbolic integer "
+                  "range membership, notation rule) checked by TLC; every literal shape and magnitude replayed into every destination kind "
+                  "three-way with encoding/json; float boundary classes built with math/big and judged by strconv",
+        text="TLC enumerates every string over the number alphabet to the bound with the rule each destination applies and every "
+             "magnitude 2^k+delta with its range verdict per width; the harness decodes each into 16 destination kinds (+UseNumber, UseInt64, "
+             "map keys, ast accessors) and compares error-or-not and value bit for bit with encoding/json; printing is compared with "
+             "encoding/json on thresholds, extremes and seeded bit patterns.",
+        design_ref="DESIGN.md section 4 C19, section 5, section 11",
+        note="the digits (correct rounding, shortest output) are decided by strconv/encoding/json - arithmetic is outside what TLC can state; "
+             "two known findings (-0 integer literal loses its sign; float32 is rounded twice) matched by computed deviation signatures",
+        engine="num",
+    ),
 }
 
 NOT_YET = "not yet claimed: check under construction (build phase), see DESIGN.md section 8"
